@@ -1902,6 +1902,8 @@ def check_json(ctx):
     okd = len(d) == 1 and len(wvars) == 1 and [u(a) for a in d[0].args] == [fe.params()[2], wvars[0]] and u(get_kw(d[0], 'default')) == 'self.to_json'
     rep.add('E3', fe.site(d[0] if d else None), 'JSON formats are produced by json.dump of the results with the exporter\'s to_json as the default hook (valid JSON by construction)', okd, expected='json.dump(results, f, default=self.to_json, **opts)',
             found=[u(c) for c in d], stmt='json dump')
+    if d:
+        rep.account_exits('E3', fe, [s_ for s_ in stmts_in(fe.node.body) if not isinstance(s_, (ast.If, ast.For, ast.While, ast.With, ast.Try)) and any(x_ is d[0] for x_ in ast.walk(s_))], 'the document is written')
     bt = base.methods['to_json']
     rb = [s for s in bt.node.body if isinstance(s, ast.Return)]
     rep.add('E3', bt.site(), 'the base conversion is the shared converter', len(rb) == 1 and u(rb[0].value) == f'gjson.to_json({bt.params()[1]})', expected='gjson.to_json(obj)', found=[u(r.value) for r in rb], stmt='base to_json')
@@ -2333,6 +2335,7 @@ from ..variants import V  # noqa: E402
 _R = 'src/gambit/results.py'
 _J = 'src/gambit/util/json.py'
 VARIANTS = [
+    V('guard clause: the JSON export returns before writing (early-exit probe)', 'B', 'src/gambit/results.py', "\t\twith maybe_open(file_or_path, 'w') as f:\n\t\t\tjson.dump(results, f, default=self.to_json, **opts)", "\t\tif len(results.items) == 1:\n\t\t\treturn\n\t\twith maybe_open(file_or_path, 'w') as f:\n\t\t\tjson.dump(results, f, default=self.to_json, **opts)", 'E3'),
     V('guard clause: a single result returns after the header (early-exit probe)', 'B', 'src/gambit/results.py', "\t\t\twriter.writerow(self.get_header())\n", "\t\t\twriter.writerow(self.get_header())\n\t\t\tif len(results.items) == 1:\n\t\t\t\treturn\n", 'E3'),
     V('E: guard clause: no results -> return after the header', 'E', 'src/gambit/results.py', "\t\t\twriter.writerow(self.get_header())\n", "\t\t\twriter.writerow(self.get_header())\n\t\t\tif not results.items:\n\t\t\t\treturn\n"),
     V('guard clause: no results -> return BEFORE the header', 'B', 'src/gambit/results.py', "\t\t\twriter.writerow(self.get_header())\n", "\t\t\tif not results.items:\n\t\t\t\treturn\n\t\t\twriter.writerow(self.get_header())\n", 'E3'),
